@@ -388,7 +388,9 @@ fn spawn_worker(world: &str, a: &CheckArgs, runs: u64, stride: u64, offset: u64,
             &offset.to_string(), "--prefix", prefix, "--skip", &skip_s, "--samples", &samples.to_string(),
         ])
         .stdout(Stdio::null())
-        .stderr(Stdio::inherit())
+        // dryoc reports failed munlock/mprotect calls on drop with eprintln!; under injected
+        // refusals that is expected chatter, not diagnostics
+        .stderr(if std::env::var("VERIF_VERBOSE").is_ok() { Stdio::inherit() } else { Stdio::null() })
         .spawn()
         .expect("spawn worker")
 }
